@@ -310,6 +310,10 @@ func sgGenFor(prop string) func(seed uint64, idx, total int, tier string) any {
 					} else {
 						ops = append(ops, sgOp{Kind: "offer", Peer: p}, sgOp{Kind: "setlocal", Peer: p, A: -1})
 					}
+					if r.Bool(0.25) {
+						// a provisional answer first (only possible after a remote offer), then the rollback
+						ops = append(ops, sgOp{Kind: "answer", Peer: p}, sgOp{Kind: "setlocal", Peer: p, A: 1})
+					}
 					if r.Bool(0.5) {
 						ops = append(ops, sgOp{Kind: "setlocal", Peer: p, A: 3, B: r.Intn(2)})
 					} else {
